@@ -304,6 +304,9 @@ def run(ctx):
     distinct = set()
     for c in cases:
         r = res.get(c["id"])
+        if (r or {}).get("not_run"):
+            outcomes["not-run"] = outcomes.get("not-run", 0) + 1
+            continue
         failures += judge(c, r)
         o = "hang" if (r or {}).get("hang") else ("died" if "died" in (r or {}) else (r or {}).get("outcome", "?").split("@")[0])
         outcomes[o] = outcomes.get(o, 0) + 1
@@ -322,6 +325,8 @@ def run(ctx):
     smodel, _, _ = ctx.run_model(scases, timeout=3000)
     scan_stats = {"ok": 0, "errors": 0, "tokens": 0}
     for c in scases:
+        if (simpl.get(c["id"]) or {}).get("not_run"):
+            continue
         failures += judge_scan(c, simpl.get(c["id"]), smodel.get(c["id"]))
         r = simpl.get(c["id"]) or {}
         if r.get("ok"):
@@ -348,6 +353,8 @@ def run(ctx):
     rmodel, _, _ = ctx.run_model(rcases, timeout=3000)
     render_stats = {"locations": 0, "rendered": 0, "out-of-range": 0}
     for c in rcases:
+        if (rimpl.get(c["id"]) or {}).get("not_run"):
+            continue
         failures += judge_render(c, rimpl.get(c["id"]), rmodel.get(c["id"]), render_stats)
 
     seen, uniq = set(), []
